@@ -169,6 +169,21 @@ theorem codes_ok :
     TaskModel.Gen.Codes.errorCodes.lookup "TaskMissingRequiredVarsError" = some 206 ∧
     TaskModel.Gen.Codes.errorCodes.lookup "TaskNotAllowedVarsError" = some 207 := by decide
 
+/-- **C13 (a failed precondition fails the task).** In every reachable configuration, an
+activation whose precondition fails (and whose early guards pass) and whose result has been
+decided has an error result — whatever the flags, `--force` included.  Exception stated in
+the hypothesis: a deduplicated waiter (`waitsFor ≠ none`) returns the outcome of the
+execution it waited for instead of evaluating its own guards. -/
+theorem C13_precond_fails (P : Program) (F : Flags) (n : Nat) (tr : List Label) (c : Config)
+    (h : replay P F (init n) tr = some c) (a : Nat) (x : Act) (hx : c.act? a = some x)
+    (hpre : x.def_.precondOk = false) (hearly : earlyBlocked x.def_ = false) (hw : x.waitsFor = none)
+    (hp : postPhase x.phase = true) : x.res.isOk = false := by
+  have hg : Guarded F x ∧ FailInv x := localInv_sound (fun x => Guarded F x ∧ FailInv x) P F
+    (fun c kind t => ⟨guarded_fresh P F c kind t, failInv_fresh P F c kind t⟩)
+    (fun o x ev y eff hg hs => ⟨guarded_local F o x ev y eff hg.1 hs, failInv_local F o x ev y eff hg.1 hg.2 hs⟩)
+    (fun x k hg => ⟨guarded_kids F x k hg.1, ⟨hg.2.waiter, hg.2.fails⟩⟩) n tr c h a x hx
+  exact hg.2.fails hpre hearly hw (.inl hp)
+
 /-- **C13 (internal task on the command line).** `Run` rejects the invocation with 202
 before any activation exists: a complete run (`finalCheck`) has no event at all and
 returns 202. -/
